@@ -21,6 +21,7 @@ import (
 	"reflect"
 	"sort"
 	"strings"
+	"unicode/utf8"
 
 	v2 "mosn.io/mosn/pkg/config/v2"
 	"mosn.io/mosn/pkg/configmanager"
@@ -163,7 +164,11 @@ func (g *gen) spoil(text string) (string, string) {
 	switch r.Intn(12) {
 	case 0:
 		if len(t) > 2 {
-			return t[:1+r.Intn(len(t)-1)], "truncated"
+			cut := 1 + r.Intn(len(t)-1)
+			for cut > 1 && !utf8.ValidString(t[:cut]) { // texts are valid UTF-8 (the model's texts are character lists)
+				cut--
+			}
+			return t[:cut], "truncated"
 		}
 		return "{", "truncated"
 	case 1:
